@@ -285,8 +285,17 @@ def check_tree(run, rng, tree, engine: str, case_id: Any, share: Optional[bool] 
             else:
                 # file objects as the operating system hands them out: an anonymous temporary file and a file opened
                 # from a descriptor have an int as .name, a file opened by path has the path
-                kind = (case_id if isinstance(case_id, int) else 0) % 3
-                if kind == 0:
+                kind = (case_id if isinstance(case_id, int) else 0) % 5
+                if kind >= 3:
+                    # the text written through a file object that translates line ends (what a text file gets on Windows,
+                    # or on an old Mac), then read with the line ends as they are on disk
+                    fd, path = tempfile.mkstemp(prefix='rv-c01-', suffix='.txt')
+                    with os.fdopen(fd, 'w', encoding='utf8', errors='surrogatepass', newline='\r\n' if kind == 3 else '\r') as wf:
+                        wf.write(text)
+                    src = open(path, encoding='utf8', errors='surrogatepass', newline='')
+                    os.unlink(path)
+                    run.count('deliveries_with_translated_line_ends')
+                elif kind == 0:
                     src = tempfile.TemporaryFile('w+', encoding='utf8', errors='surrogatepass', newline='')
                     src.write(text)
                     src.seek(0)
@@ -300,7 +309,7 @@ def check_tree(run, rng, tree, engine: str, case_id: Any, share: Optional[bool] 
                         src = open(os.open(path, os.O_RDONLY), encoding='utf8', errors='surrogatepass', newline='')
                     os.unlink(path)
                 closer = src
-                how = f'realfile/{("TemporaryFile", "open(path)", "open(fd)")[kind]}'
+                how = f'realfile/{("TemporaryFile", "open(path)", "open(fd)", "CR LF line ends", "CR line ends")[kind]}'
                 run.count('real_file_deliveries')
             diff = err = None
             try:
@@ -409,7 +418,7 @@ def main(run, shard=(0, 1)) -> None:
     probe.report(run)
     probe.check_reached(run)
     run.require('serialise_calls', 'parse_calls', 'real_file_deliveries', 'roundtrips_after_edit', 'trees_with_escape_char_in_block_name',
-                'trees_with_one_object_in_two_places', 'prebuilt_tokenizer_deliveries', 'serialise_into_sinks', 'parses_after_an_abandoned_tokenizer')
+                'trees_with_one_object_in_two_places', 'prebuilt_tokenizer_deliveries', 'serialise_into_sinks', 'parses_after_an_abandoned_tokenizer', 'deliveries_with_translated_line_ends')
 
 
 def replay(run, data) -> None:
